@@ -11,5 +11,5 @@ CONSTANTS
   Emit = TRUE
 SPECIFICATION Spec
 ACTION_CONSTRAINT EmitEdge
-INVARIANTS TRange TDSmall TChildren TMonotone TPerm TFragment TDouble TGate TGateMono TBinding TBindState TAlias
+INVARIANTS TRange TDSmall TChildren TMonotone TPerm TFragment TDouble TGate TGateMono TBindState
 CHECK_DEADLOCK FALSE
